@@ -130,6 +130,7 @@ fn ascii<const N: usize>() -> [u8; N] {
 macro_rules! match_prefix_h {
     ($name:ident, $n:expr) => {
         #[kani::proof]
+        #[kani::unwind(8)] // core::str::from_utf8 advances by a pointer-alignment dependent amount: CBMC needs a bound
         fn $name() {
             const N: usize = $n;
             let a: [u8; N] = ascii::<N>();
